@@ -950,7 +950,11 @@ enum cc_stat cc_array_sized_iter_remove(CC_ArraySizedIter *iter, uint8_t *out)
  */
 enum cc_stat cc_array_sized_iter_add(CC_ArraySizedIter *iter, uint8_t *element)
 {
-    return cc_array_sized_add_at(iter->ar, element, iter->index++);
+    enum cc_stat status = cc_array_sized_add_at(iter->ar, element, iter->index);
+    if (status == CC_OK) {
+        iter->index++;
+    }
+    return status;
 }
 
 /**
